@@ -612,6 +612,20 @@ func (ev *Ev) binop(op token.Token, a, b Value, at ast.Expr) Value {
 	if at != nil {
 		pos = at.Pos()
 	}
+	if (a.K == vSlice && b.K == vScalar && b.T == "nil") || (b.K == vSlice && a.K == vScalar && a.T == "nil") {
+		sv := a
+		if b.K == vSlice {
+			sv = b
+		}
+		// s == nil: no backing array and no elements
+		eq := and(app("=", sv.Comp["#arr"].T, "nil"), app("=", sv.Comp["#len"].T, "0"))
+		if op == token.NEQ {
+			return boolV(not(eq))
+		}
+		if op == token.EQL {
+			return boolV(eq)
+		}
+	}
 	if a.K == vStruct || b.K == vStruct || a.K == vSlice || b.K == vSlice {
 		if op == token.EQL || op == token.NEQ {
 			eq := ev.valuesEqual(a, b)
@@ -842,6 +856,11 @@ func (ev *Ev) coerce(v Value, t types.Type) Value {
 	if t == nil {
 		return v
 	}
+	if v.K == vScalar && v.T == "nil" {
+		if _, isSlice := t.Underlying().(*types.Slice); isSlice {
+			return ev.u.zero(t) // nil slice: no backing array, length 0, empty set view
+		}
+	}
 	s := ev.u.sortOf(t)
 	if s == SRef && (v.K == vStruct || v.K == vSlice || (v.K == vScalar && v.S != SRef)) {
 		if _, isIface := t.Underlying().(*types.Interface); isIface {
@@ -999,9 +1018,17 @@ func (ev *Ev) stepField(cur Value, i int, pos token.Pos) Value {
 		if !ev.spec {
 			ev.nilCheck(cur, pos)
 		}
-		return ev.u.build(f.Type(), f.Name()+".", func(path string, s Sort, lt types.Type) string {
+		fv := ev.u.build(f.Type(), f.Name()+".", func(path string, s Sort, lt types.Type) string {
 			return ev.u.readField(ev.st, el, path, s, cur.T)
 		})
+		if !ev.spec && (fv.K == vSlice || fv.K == vStruct) && !strings.Contains(cur.T, "$") {
+			walkValue(fv, "", func(path string, l Value) {
+				if strings.HasSuffix(path, "#len") {
+					ev.st.assume(app(">=", l.T, "0"))
+				}
+			})
+		}
+		return fv
 	}
 	st, ok := structOf(t)
 	if !ok {
